@@ -1,5 +1,8 @@
 import LexVerif.Proof.WriteIntApi
 import LexVerif.Proof.WriteIntAlgorithm
+import LexVerif.Proof.WriteIntDecimal128
+import LexVerif.Proof.WriteIntDecimalCount
+import LexVerif.Proof.WriteIntAlgorithmU128
 /-!
 # C03 — integer→string output is the exact canonical numeral in every radix (property theorems)
 
@@ -17,11 +20,8 @@ open LexVerif.Spec LexVerif.Model LexVerif.Model.WriteInt
 is written with a required `+`, see `plus_sign_needs_one_more_byte`), the writer returns exactly
 sign ++ canonical numeral at offset 0, the returned count is its length, the rest of the buffer is
 untouched, and neither FAULT (out-of-range unchecked access) nor PANIC occurs. -/
--- Status: proved = `writeInt_correct_compact` (all compact builds, everything) and
--- `writeInt_correct_radix_partial` (non-compact, radix ≠ 10, magnitudes < 2^64).  Open (covered by the
--- correspondence run only): the decimal jeaiii writers (`decimal.rs`/`jeaiii.rs`, all default builds and
--- radix 10 elsewhere), the decimal digit counts (not on the integer write path), and `algorithm_u128` for
--- magnitudes ≥ 2^64 (`u128_divrem`, `write_step_digits`).
+-- Status: PROVED in full (`writeInt_correct_full_holds` at the end of this file), assembled from
+-- `writeInt_correct_compact`, `writeInt_correct_decimal` and `writeInt_correct_radix`.
 def writeInt_correct_full : Prop :=
   ∀ (feats : Features) (t : IntTy) (radix : Nat) (reqSign checkValid : Bool) (v : Int) (buffer : Buf),
     FeaturesWF feats → ValidBits t.bits → validRadix feats radix = true → t.inRange v →
@@ -135,11 +135,157 @@ theorem writeInt_correct_radix_partial (feats : Features) (t : IntTy) (radix : N
   · rw [h]
     exact radixWrite_u128_small_spec feats radix _ hr2 hr36 h10 (hsmall h) htab hvalid buf hb
 
+/-- `u128_divrem(n, radix) = (n / radix^u64_step(radix), n % radix^u64_step(radix))` for every 128-bit `n` and every
+radix of the feature set: `pow2_u128_divrem`, `moderate_u128_divrem` / `fast_u128_divrem` (multiply-high with the
+Granlund–Montgomery precondition on the literal constants) and `slow_u128_divrem` (bit-serial loop invariant). -/
+theorem u128_divrem_correct (feats : Features) (n radix : Nat) (hvalid : validRadix feats radix = true)
+    (hn : n < 2 ^ 128) :
+    u128Divrem feats n radix = .ok (n / radix ^ u64StepTable radix, n % radix ^ u64StepTable radix) :=
+  u128Divrem_spec feats n radix hvalid hn
+
+example : u128Divrem { powerOfTwo := true, radix := true } (2 ^ 127 + 12345) 3 =
+    .ok ((2 ^ 127 + 12345) / 3 ^ 40, (2 ^ 127 + 12345) % 3 ^ 40) := by decide +kernel
+
+/-- `digit_count` of a `u128` is exact for every non-decimal radix (chunked variant included) -/
+theorem digitCountU128_exact (feats : Features) (value radix : Nat) (hvalid : validRadix feats radix = true)
+    (h10 : radix ≠ 10) (hv : value < 2 ^ 128) :
+    digitCountU128 feats value radix = .ok (toDigits radix value).length :=
+  digitCountU128_spec feats value radix hvalid h10 hv
+
+/-- **C03 for the generic radix writer, complete**: every non-compact build with `power-of-two`/`radix`, every
+non-decimal radix of the feature set, all 12 integer types, every value (for 128-bit magnitudes above
+`u64::MAX`: `u128_divrem` chunking, `write_step_digits`, the chunked digit count). -/
+theorem writeInt_correct_radix (feats : Features) (t : IntTy) (radix : Nat) (reqSign checkValid : Bool)
+    (v : Int) (buffer : Buf) (hc : feats.compact = false)
+    (hwf : FeaturesWF feats) (hbits : ValidBits t.bits) (hvalid : validRadix feats radix = true)
+    (h10 : radix ≠ 10) (hv : t.inRange v)
+    (hbuf : requiredSize feats t radix reqSign ≤ buffer.length) :
+    writeInt feats t radix reqSign checkValid v buffer =
+      .ok (expected feats radix reqSign v ++ buffer.drop (expected feats radix reqSign v).length,
+           (expected feats radix reqSign v).length) := by
+  by_cases hsmall : t.bits = 128 → v.natAbs < 2 ^ 64
+  · exact writeInt_correct_radix_partial feats t radix reqSign checkValid v buffer hc hwf hbits hvalid h10 hv hsmall hbuf
+  · have h128 : t.bits = 128 := by
+      rcases Classical.em (t.bits = 128) with h | h
+      · exact h
+      · exact absurd (fun h' => absurd h' h) hsmall
+    have hbig : ¬ v.natAbs ≤ 2 ^ 64 - 1 := by
+      intro hle; exact hsmall (fun _ => by omega)
+    obtain ⟨hr2, hr36⟩ := validRadix_range feats radix hvalid
+    have hp2 := validRadix_ne10 feats radix hwf hvalid h10
+    have hsize := size_ok feats hwf t hbits radix hvalid reqSign v hv
+    have hmaglt : v.natAbs < 2 ^ 128 := by
+      obtain ⟨bits, sg⟩ := t
+      simp only [IntTy.inRange, IntTy.minVal, IntTy.maxVal, IntTy.maxMag] at hv
+      simp only at h128
+      subst h128
+      cases sg <;> simp at hv <;> omega
+    have htab : hasTable feats radix = true := by
+      unfold hasTable; unfold validRadix at hvalid
+      by_cases hrx : feats.radix = true
+      · rw [if_pos hrx] at hvalid ⊢; exact hvalid
+      · rw [if_neg hrx] at hvalid ⊢; rw [if_pos hp2] at hvalid; exact hvalid
+    have hlen128 : (numeral radix v.natAbs).length ≤ 128 := by
+      rw [numeral_length]; exact toDigits_length_le_bits radix v.natAbs 128 hr2 (by omega) hmaglt
+    apply writeInt_of_mantissa feats t radix reqSign checkValid v buffer (numeral radix v.natAbs).length hbits
+      hvalid hv ?_ (by omega) (Nat.le_refl _) (by omega)
+    intro buf hb
+    unfold writeMantissa
+    rw [if_neg (by simp [hc]), if_neg (by simp [hp2]), if_neg h10, h128]
+    unfold radixWrite
+    rw [if_neg (by simp [htab]), if_pos rfl]
+    exact algorithmU128_big_spec feats v.natAbs radix hvalid h10 hmaglt hbig buf hb
+
+/-- non-vacuity: u128::MAX in radix 36 (two `u128_divrem` steps) and in radix 3 (`slow_u128_divrem`) -/
+example : (writeInt { powerOfTwo := true, radix := true } ⟨128, false⟩ 36 false true
+      340282366920938463463374607431768211455 (List.replicate 256 170)) =
+    .ok ([70, 53, 76, 88, 88, 49, 90, 90, 53, 80, 78, 79, 82, 89, 78, 81, 71, 76, 72, 90, 77, 83, 80, 51, 51]
+      ++ List.replicate 231 170, 25) := by decide +kernel
+
 /-- non-vacuity: i64::MIN in radix 36 on a `radix` build -/
 example : writeInt { powerOfTwo := true, radix := true } ⟨64, true⟩ 36 false true (-9223372036854775808)
     (List.replicate 128 170) =
     .ok ([45, 49, 89, 50, 80, 48, 73, 74, 51, 50, 69, 56, 69, 56] ++ List.replicate 114 170, 14) := by
   decide +kernel
+
+/-- the decimal digit counts (`fast_digit_count` with its 32-row table for u8/u16/u32, `fallback_digit_count` with
+`fast_log10` and the power-of-ten tables for u64/u128) are exact for every value. (They are not on the integer
+write path — radix 10 goes through jeaiii — but the float writers use them.) -/
+theorem decimalCount_exact (bits x : Nat) (hb : ValidBits bits) (hx : x < 2 ^ bits) :
+    decimalCount bits x = .ok (toDigits 10 x).length :=
+  decimalCount_spec bits x hb hx
+
+example : decimalCount 32 999999999 = .ok 9 ∧ decimalCount 32 1000000000 = .ok 10 := by decide +kernel
+
+/-- `Decimal::decimal(_signed)` (the jeaiii writers `from_u8 … from_u128`, `from_i64`) writes exactly the decimal
+numeral into any buffer of at least the type's slice size, for every value. -/
+theorem decimal_correct (bits value : Nat) (signedCall : Bool) (hb : ValidBits bits) (hv : value < 2 ^ bits)
+    (hs : signedCall = true → value ≤ 2 ^ (bits - 1)) :
+    MantSpec (decimal bits value signedCall) (numeral 10 value) (needDec bits signedCall) :=
+  decimal_spec bits value signedCall hb hv hs
+
+/-- **C03 for the decimal writers** (`decimal.rs` / `jeaiii.rs`): every non-compact build (default, `format`,
+`power-of-two`, `radix`), radix 10, all 12 integer types, every value, both sign settings: the jeaiii comparison
+trees `from_u8 … from_u128`, every `write_digits!` arm (fixed-point digit extraction with the literal
+multipliers), `@10alex` and `div128_rem_1e10`. -/
+theorem writeInt_correct_decimal (feats : Features) (t : IntTy) (reqSign checkValid : Bool)
+    (v : Int) (buffer : Buf) (hc : feats.compact = false)
+    (hbits : ValidBits t.bits) (hvalid : validRadix feats 10 = true)
+    (hv : t.inRange v) (hbuf : requiredSize feats t 10 reqSign ≤ buffer.length) :
+    writeInt feats t 10 reqSign checkValid v buffer =
+      .ok (expected feats 10 reqSign v ++ buffer.drop (expected feats 10 reqSign v).length,
+           (expected feats 10 reqSign v).length) := by
+  obtain ⟨bits, sg⟩ := t
+  simp only at hbits
+  have hv' := hv
+  simp only [IntTy.inRange, IntTy.minVal, IntTy.maxVal, IntTy.maxMag] at hv'
+  -- magnitude bounds
+  have hmag1 : v.natAbs < 2 ^ bits := by
+    rcases hbits with h | h | h | h | h <;> subst h <;> cases sg <;> simp at hv' <;> omega
+  have hmag2 : sg = true → v.natAbs ≤ 2 ^ (bits - 1) := by
+    intro hsg; subst hsg
+    rcases hbits with h | h | h | h | h <;> subst h <;> simp at hv' <;> omega
+  have hM := decimal_spec bits v.natAbs sg hbits hmag1 hmag2
+  have hMant : MantSpec (writeMantissa feats bits 10 v.natAbs sg) (numeral 10 v.natAbs) (needDec bits sg) := by
+    intro buf hb
+    unfold writeMantissa
+    rw [if_neg (by simp [hc])]
+    by_cases hp : feats.powerOfTwo = true
+    · rw [if_neg (by simp [hp]), if_pos rfl]; exact hM buf hb
+    · rw [if_pos (by simp [hp])]; exact hM buf hb
+  have hroom := dec_room feats ⟨bits, sg⟩ reqSign v hbits hv
+  simp only at hroom
+  apply writeInt_of_mantissa feats ⟨bits, sg⟩ 10 reqSign checkValid v buffer _ hbits hvalid hv hMant (by omega)
+  · -- the numeral fits the slice
+    rcases hbits with h | h | h | h | h <;> subst h <;> cases sg <;> simp at hv' <;>
+      first
+        | exact dec_len_le _ 3 (by omega) (by omega)
+        | exact dec_len_le _ 5 (by omega) (by omega)
+        | exact dec_len_le _ 10 (by omega) (by omega)
+        | exact dec_len_le _ 19 (by omega) (by omega)
+        | exact dec_len_le _ 20 (by omega) (by omega)
+        | exact dec_len_le _ 39 (by omega) (by omega)
+  · rcases hbits with h | h | h | h | h <;> subst h <;> cases sg <;> simp [needDec]
+
+/-- non-vacuity: u64::MAX and i128::MIN on the default build -/
+example : writeInt {} ⟨64, false⟩ 10 false false 18446744073709551615 (List.replicate 20 170) =
+    .ok ([49, 56, 52, 52, 54, 55, 52, 52, 48, 55, 51, 55, 48, 57, 53, 53, 49, 54, 49, 53], 20) := by decide +kernel
+example : writeInt {} ⟨128, true⟩ 10 false false (-170141183460469231731687303715884105728)
+    (List.replicate 40 170) =
+    .ok ([45, 49, 55, 48, 49, 52, 49, 49, 56, 51, 52, 54, 48, 52, 54, 57, 50, 51, 49, 55, 51, 49, 54, 56, 55, 51, 48, 51, 55, 49, 53, 56, 56, 52, 49, 48, 53, 55, 50, 56], 40) := by
+  decide +kernel
+
+/-- **C03 holds on the model, in full**: `writeInt_correct_full` for every feature set, type, radix, value, sign
+setting and buffer of the documented size. -/
+theorem writeInt_correct_full_holds : writeInt_correct_full := by
+  intro feats t radix reqSign checkValid v buffer hwf hbits hvalid hv hbuf
+  by_cases hc : feats.compact = true
+  · exact writeInt_correct_compact feats t radix reqSign checkValid v buffer hc hwf hbits hvalid hv hbuf
+  · have hc' : feats.compact = false := by simpa using hc
+    by_cases h10 : radix = 10
+    · subst h10
+      exact writeInt_correct_decimal feats t reqSign checkValid v buffer hc' hbits hvalid hv hbuf
+    · exact writeInt_correct_radix feats t radix reqSign checkValid v buffer hc' hwf hbits hvalid h10 hv hbuf
 
 /-- **Finding (kept out of the theorem by `requiredSize`)**: with the `format` feature and
 `required_mantissa_sign`, an unsigned value written into a buffer of exactly `buffer_size_const`
